@@ -196,6 +196,7 @@ def check(model: Model, report: Report) -> None:
     report.rule("R07.3", "index selection and location normalisation over the four regions of (i, n)")
     report.rule("R07.5", "slice selection: zero-step guard; same slice object and same list for indices and elements; pairing")
     report.rule("R07.6", "slice parsing: token at each position reaches start/stop/step; omitted parts stay None")
+    report.rule("R07.8", "index and slice tokens of whole-query shapes reach the selectors as the integers they spell (sign kept, order kept)")
     report.rule("R07.7", "SliceSelector stores its components positionally")
     report.assumptions += ["A2: slice(start, stop, step).indices(n) and list[slice] implement RFC 9535 2.3.4.2.2 for step != 0"]
     report.not_decided += ["assumption A2 itself (host slice semantics)"]
@@ -203,4 +204,7 @@ def check(model: Model, report: Report) -> None:
     _selrules.check_slice(model, report, "R07.5")
     check_parse_slice(model, report, "R07.6")
     check_slice_init(model, report, "R07.7")
+    from . import _shapes
+
+    _shapes.check_query_trees(model, report, "R07.8")
     report.extra["explanation"] = "C07: index regions decided for all integers by linear forms + octagon; slice delegation shape; 12 slice token shapes through the interpreted parser."
